@@ -184,7 +184,7 @@ static void explore_cfg(Ctx &c, const Cfg &cfg){
         // history B: generic smooth function, refinement rounds, reload with a member on the adapted grid
         {
             TasmanianSparseGrid gt, gc; make(gt, cfg); if (tr) make(gc, cc);
-            TasmanianSparseGrid &g0 = tr ? gc : gt; Fn fg; fg.d = d; fg.gkind = (cfg.fam == F_FOURIER) ? 4 : 0; fg.fam = cfg.fam;
+            TasmanianSparseGrid &g0 = tr ? gc : gt; Fn fg; fg.d = d; fg.gkind = (cfg.fam == F_FOURIER) ? 4 : ((cfg.fam == F_LOCALP && cfg.depth >= 8) ? 6 : 0); fg.fam = cfg.fam; // deep local grids get a non-smooth function
             auto vals = fn_values(fg, g0.getNeededPoints(), d, outs);
             gt.loadNeededValues(vals); if (tr) gc.loadNeededValues(vals); c.transitions++;
             hist = "make load(generic)"; check_state(c, cfg, gt, tr ? &gc : nullptr, fg, hist);
@@ -235,6 +235,9 @@ static std::vector<Cfg> unit_cfgs(const U0 &u){
         std::vector<std::vector<int>> LIM = {{}}; if (d >= 2 && th){ std::vector<int> l(d, 3); l[0] = 1; LIM.push_back(l); }
         for(int depth=0; depth<=maxdepth; depth++) for(auto &lim : LIM) for(int tr=0; tr<2; tr++){
             Cfg c; c.fam = u.fam; c.rule = u.rule; c.dims = d; c.outs = 2; c.depth = depth; c.order = u.order; c.limits = lim; if (tr) settr(c); out.push_back(c); }
+        // deep 1-D grids: the generic derivative (order -1 and orders > 3) multiplies over ALL ancestors, which only shows on many levels
+        if (u.fam == F_LOCALP && d == 1 && (u.order == -1 || u.order > 3)) for(int depth : (th ? std::vector<int>{9, 10, 11, 12} : std::vector<int>{10, 11})){
+            Cfg c; c.fam = u.fam; c.rule = u.rule; c.dims = 1; c.outs = 1; c.depth = depth; c.order = u.order; out.push_back(c); }
         return out;
     }
     std::vector<std::vector<double>> AB = {{0, 0}};
@@ -261,7 +264,7 @@ static std::vector<UnitDef> units(){
     for(auto r : global_rules()) for(int d=1; d<=maxd; d++) u.push_back({F_GLOBAL, r, d, 0});
     for(auto r : {rule_leja, rule_rleja, rule_rlejashifted, rule_maxlebesgue, rule_minlebesgue, rule_mindelta}) for(int d=1; d<=maxd; d++) u.push_back({F_SEQUENCE, r, d, 0});
     for(int d=1; d<=maxd; d++) u.push_back({F_FOURIER, rule_fourier, d, 0});
-    for(auto r : {rule_localp, rule_semilocalp, rule_localp0, rule_localpb}) for(int order : {-1, 0, 1, 2, 3, 4, 5}) for(int d=1; d<=maxd; d++) u.push_back({F_LOCALP, r, d, order});
+    for(auto r : {rule_localp, rule_semilocalp, rule_localp0, rule_localpb}) for(int order : {-1, 0, 1, 2, 3, 4, 5, 12}) for(int d=1; d<=maxd; d++){ if (order == 12 && d > 1) continue; u.push_back({F_LOCALP, r, d, order}); }
     for(int order : {1, 3}) for(int d=1; d<=maxd; d++) u.push_back({F_WAVELET, rule_wavelet, d, order});
     if (!th){ // a 3-D slice in the quick tier (the Kronecker / DAG surplus paths of local grids switch at 3 dimensions)
         u.push_back({F_GLOBAL, rule_clenshawcurtis, 3, 0}); u.push_back({F_GLOBAL, rule_gausslegendre, 3, 0}); u.push_back({F_SEQUENCE, rule_rleja, 3, 0}); u.push_back({F_FOURIER, rule_fourier, 3, 0});
